@@ -142,6 +142,39 @@ def run(run):
                         run.violations.append((f"len/{exp}-{got}/path{k}",
                                                _w(run, "len", f"expected {exp} got {got}: {res}", [])))
             run.extra["length_pairs"] = run.extra.get("length_pairs", 0) + 1
+    # ---- labels: several verifiers with near-miss labels in ONE process (process-global state such
+    # as a label cache is part of the behaviour): every transcript must absorb exactly its own label
+    base = bytes((37 * i + 11) % 251 + 1 for i in range(70))
+    fam = []
+    for ln in (0, 1, 11, 31, 32, 33, 64, 70):
+        l0 = base[:ln]
+        fam.append(l0)
+        fam.append(l0 + b"\x00")                      # differs only in length (trailing NUL)
+        if ln:
+            fam.append(l0[:-1])                        # truncation
+            for pos in sorted({0, ln // 2, ln - 1}):   # one byte changed
+                fam.append(l0[:pos] + bytes([l0[pos] ^ 0x40]) + l0[pos + 1:])
+        fam.append(l0 + l0[:1] if ln else b"\x01")
+    seen, seq = set(), []
+    for l in fam + list(reversed(fam)):
+        seq.append(l)
+    lb = fw.run_driver(fw.SYM_BIN, ["verify_labels", ",".join(l.hex() for l in seq)], run.seed)
+    bad = []
+    for rec in lb["outputs"]["labels"]:
+        want = f"m|dom-sep|x:{rec['label']}"
+        if rec["first_absorbed"] != want:
+            bad.append({"label": rec["label"], "absorbed": rec["first_absorbed"]})
+    run.extra["label_runs_in_one_process"] = len(lb["outputs"]["labels"])
+    run.extra["distinct_labels"] = len(set(seq))
+    if bad:
+        import json, os
+        d = os.path.join(fw.OUT, "cex")
+        os.makedirs(d, exist_ok=True)
+        pth = os.path.join(d, "C04_labels.json")
+        json.dump({"property": "C04", "what": "a verifier's transcript absorbed a label other than its own "
+                   "(after other labels were used in the same process)", "cases": bad[:20],
+                   "sequence": [l.hex() for l in seq]}, open(pth, "w"), indent=1)
+        run.violations.append(("labels/absorbed-own-label", pth))
     # ---- version pairs
     base = {}
     for ver in ("1", "2", "3"):
@@ -171,6 +204,8 @@ def run(run):
                       "ALL values of proof fields, keys, public inputs, challenges")
     run.assumptions.append("random-oracle model: a statement item absorbed before the first challenge makes every "
                            "challenge an independent fresh value when that item changes")
+    run.notes.append("label near-misses are a finite enumeration of concrete label sequences executed in one "
+                     "process by the real code (history-dependent state); this part is enumeration, not a solver verdict.")
     run.outside.append("near-miss circuits as compiled objects (the claim is at the level of differing "
                        "commitments / label bytes / sizes); hash collisions")
 
